@@ -360,7 +360,7 @@ func runC16(p *core.Program, r *core.Report) {
 	noSilentTruncation(p, r, "C16.zip-complete", []string{"util/compressutil"})
 	r.Rule("C16.stateless", "what a record or a batch encodes to depends on that record or batch only: no function of lang/pack writes package-level state (a cache of encoded pieces filled while writing makes a later payload carry an earlier record's bytes)", 1)
 	statelessRule(p, r, "C16.stateless", []string{"lang/pack"})
-	r.Rule("C16.handed-over", "a pack already handed to the client is never altered: behind Send/SendFlush the sender neither passes the pack on (recycling, reset) nor assigns through it", 2)
+	r.Rule("C16.handed-over", "a pack already handed to the client is never altered: behind Send/SendFlush the sender neither passes the pack on (recycling, reset) nor assigns through it", 1)
 	c16HandedOver(p, r, "C16.handed-over")
 	r.Rule("C16.zip-fresh", "the compressed bytes DoZip hands back are the caller's own: they are not the backing array of a buffer that is reused by the next compression (pooled, package-level), so a pack already handed to the client is not rewritten", 1)
 	freshBytesResult(p, r, "C16.zip-fresh", []string{"util/compressutil"})
